@@ -34,7 +34,7 @@ class C01(Check):
         'labels_valid': 'len(path)=T and every label is an integer in [0,K)',
         'reported_cost_is_cost_of_returned_path': 'true_cost = sum c[i][path[i]] + sum_{i<T-1} beta[i]*[path[i]!=path[i+1]]',
         'optimal_vs_any_rival': 'for every rival q in [0,K)^T: cost(q) >= true_cost (rival is symbolic)',
-        'scalar_equals_constant_vector': 'kernel(c, b) and kernel(c, [b]*T) return the same path and cost',
+        'scalar_equals_constant_vector': 'kernel(c, b) and then kernel(c, [b]*T) on the same table object return the same path and cost, and the table is left as the caller built it',
         'predict_hands_neg_loglik_and_beta_to_kernel': 'table handed to the kernel is -loglik; switching cost is the model argument unchanged',
         'predict_returns_kernel_result': "returned state's labels/cost are exactly the kernel's; input state untouched",
     }
@@ -153,9 +153,17 @@ class C01(Check):
         b = c.real('b', 0)
         vec = np.ndarray._new([b] * T, (T,), np.float64, owner='caller')
         c.notes.update({'T': T, 'K': K, 'form': 'both'})
-        p1, c1 = Rp.cla.assign_point_cluster_labels(cost, b)
-        p2, c2 = Rp.cla.assign_point_cluster_labels(cost, vec)
+        snap = stubs.snapshot(cost)
+        ok, r1 = guarded(c, 'scalar_equals_constant_vector', Rp.cla.assign_point_cluster_labels, cost, b)
+        if not ok:
+            return
+        ok, r2 = guarded(c, 'scalar_equals_constant_vector', Rp.cla.assign_point_cluster_labels, cost, vec)
+        if not ok:
+            return
+        (p1, c1), (p2, c2) = r1, r2
         same = [len(p1) == len(p2), R(c1) == R(c2)] + [I(x) == I(y) for x, y in zip(p1, p2)]
+        # the same caller-owned table is labelled twice: it must still be the caller's table
+        same.append(stubs.unchanged(snap, cost))
         c.prove('scalar_equals_constant_vector', conj(same))
 
     # ---- the caller
@@ -182,6 +190,8 @@ class C01(Check):
 
         def spy(label_assignment_cost, label_switching_cost):
             seen['cost'] = label_assignment_cost
+            # the table AS HANDED OVER (what the kernel does to its argument afterwards is not this obligation)
+            seen['cost_at_entry'] = label_assignment_cost.copy() if isinstance(label_assignment_cost, np.ndarray) else None
             seen['beta'] = label_switching_cost
             r = real_kernel(label_assignment_cost=label_assignment_cost,
                             label_switching_cost=label_switching_cost)
@@ -202,7 +212,7 @@ class C01(Check):
         if all(f):
             for i in range(T):
                 for k in range(K):
-                    f.append(R(seen['cost'][i, k]) == -R(ll[i, k]))
+                    f.append(R(seen['cost_at_entry'][i, k]) == -R(ll[i, k]))
             bs = seen['beta']
             if form == 'scalar':
                 f.append(stubs.same_terms(bs, args.label_switching_cost))
